@@ -348,6 +348,19 @@ impl Segments {
         }
     }
 
+    /// Forget the segments at the back that were never transmitted: their bytes go back to the
+    /// unsegmented part of the stream, their sequence numbers were never used on the wire.
+    pub fn discard_unsent(&mut self) {
+        while let Some(s) = self.segments.pop_back() {
+            if !matches!(s.sent, SentStatus::NotSent) {
+                self.segments.push_back(s);
+                break;
+            }
+            self.offset -= s.payload_size as u64;
+            self.len_bytes -= s.payload_size;
+        }
+    }
+
     /// Try to pop an MTU probe if it's expired.
     pub fn pop_expired_mtu_probe(
         &mut self,
